@@ -70,22 +70,22 @@ type knownPanic struct {
 
 // pathState is the per-path exploration state of one interpreter.
 type pathState struct {
-	prefix    []Decision
-	pos       int
-	decisions []Decision
-	pc        []*sym.Term
-	asserted  int
-	model     sym.Model
-	ev        *sym.Evaluator
-	vars      []*sym.Term
-	varSeen   map[string]bool
-	inputs    []InputRec
-	fuel      int64
-	observed  []string
-	reached   map[string]bool
-	knownP    []knownPanic
+	prefix      []Decision
+	pos         int
+	decisions   []Decision
+	pc          []*sym.Term
+	asserted    int
+	model       sym.Model
+	ev          *sym.Evaluator
+	vars        []*sym.Term
+	varSeen     map[string]bool
+	inputs      []InputRec
+	fuel        int64
+	observed    []string
+	reached     map[string]bool
+	knownP      []knownPanic
 	solverFresh bool
-	depth     int
+	depth       int
 }
 
 // Stats are aggregated over all workers.
@@ -117,18 +117,18 @@ func newStats() *Stats {
 
 // Explorer coordinates workers over a shared LIFO work list.
 type Explorer struct {
-	mu         sync.Mutex
-	cond       *sync.Cond
-	work       []workItem
-	active     int
-	stop       bool
-	Stats      *Stats
-	Violations []Violation
-	vioSeen    map[string]int
-	MaxPaths   int64
+	mu             sync.Mutex
+	cond           *sync.Cond
+	work           []workItem
+	active         int
+	stop           bool
+	Stats          *Stats
+	Violations     []Violation
+	vioSeen        map[string]int
+	MaxPaths       int64
 	MaxVioPerLabel int
-	Deadline   time.Time
-	Truncated  string
+	Deadline       time.Time
+	Truncated      string
 }
 
 func NewExplorer() *Explorer {
@@ -651,13 +651,13 @@ func (i *interpreter) escapedPanic(msg, site string) {
 // ---- worker loop
 
 type RunConfig struct {
-	Workers    int
-	Fuel       int64
-	MaxPaths   int64
-	Timeout    time.Duration
-	Solver     string
-	SolverMs   int
-	Debug      bool
+	Workers  int
+	Fuel     int64
+	MaxPaths int64
+	Timeout  time.Duration
+	Solver   string
+	SolverMs int
+	Debug    bool
 }
 
 // OpenKnown is the set of known-finding ids listed as open in known_findings.json.
